@@ -1,5 +1,6 @@
 SPECIFICATION GenSpec
 CONSTANTS
+  FunctionLoopFiltersModule = TRUE
   MinN = 5
   MaxN = 5
 INVARIANT GKeysAreContributors
